@@ -60,10 +60,12 @@ PROPS = {
                  covers=["events-delivered", "several-events", "refused", "catch-up-from-cache", "new-leader", "done"]),
             dict(run=B + "VerifC05Ring", quick=dict(maxsize=3), thorough=dict(maxsize=5), covers=["wrapped", "found", "low", "high", "empty"]),
             dict(run=B + "VerifC05Handover", quick=dict(before=1, during=1, preempt=1), thorough=dict(before=1, during=2, preempt=2), covers=["events-delivered", "done"], stress=60),
+            dict(run=B + "VerifC05PublishHeld", quick=dict(before=1, cache=8), thorough=dict(before=2, cache=2), covers=["events-delivered", "refused", "done"], stress=5),
+            dict(run=B + "VerifC05Publish", quick=dict(before=1, pending=1, preempt=2), thorough=dict(before=1, pending=2, preempt=3), covers=["events-delivered", "refused", "done"], stress=60),
             dict(run=B + "VerifC05SlowConsumer", quick=dict(batches=5, reads=4, preempt=2), thorough=dict(batches=6, reads=5, preempt=3), covers=["closed-for-slow-consumer", "several-delivered", "done"], stress=200),
             dict(run=B + "VerifC05Fanout", quick=dict(watches=3, events=3), thorough=dict(watches=3, events=5), covers=["several-matching", "some-filtered", "done"]),
         ],
-        bounds=dict(quick="sequential client: 2-write history, watch from a symbolic start revision (0, below/inside/at/above the cached window) on 4 prefixes, 1 further write, event cache of 2 entries (wraps), optionally served by a node that has just taken over (empty cache); fan-out: 3 watches on different prefixes and one broadcast batch of 3 put/delete events on any of 4 keys; ring: sizes 1..3 with symbolic counters and revisions; hand-over: watch registration racing 1 concurrent write with the sequencer and fan-out threads in the schedule (<= 1 delay); slow consumer: 5 queued batches, subscriber buffers of 1, consumer/forwarder/fan-out/removal interleaved (<= 2 delays)",
+        bounds=dict(quick="sequential client: 2-write history, watch from a symbolic start revision (0, below/inside/at/above the cached window) on 4 prefixes, 1 further write, event cache of 2 entries (wraps), optionally served by a node that has just taken over (empty cache); fan-out: 3 watches on different prefixes and one broadcast batch of 3 put/delete events on any of 4 keys; ring: sizes 1..3 with symbolic counters and revisions; hand-over: watch registration racing 1 concurrent write with the sequencer and fan-out threads in the schedule (<= 1 delay); publication: a watch registering while the sequencer publishes one stored write (cache insertion and broadcast) and the fan-out forwards it (<= 2 delays), and the same with the sequencer held at the cache insertion; slow consumer: 5 queued batches, subscriber buffers of 1, consumer/forwarder/fan-out/removal interleaved (<= 2 delays)",
                     thorough="2 keys for the sequential client; ring sizes 1..5; hand-over with 2 concurrent writes and 2 deviations; 6 batches and 3 deviations for the slow consumer; broadcast batches of 5 events"),
         outside="real channel capacities (10000 / 100) other than through the isolated fan-out harness; more than 2 scheduling delays; more than 3 watches on one node, broadcast batches of more than 3 (thorough 5) events",
     ),
@@ -129,10 +131,12 @@ PROPS = {
         harnesses=[
             dict(run=B + "VerifC06ListWatch", quick=dict(ops=1, keys=1, val9=0, later=2, newleader=1), thorough=dict(ops=1, keys=2, val9=0, later=2, newleader=1), covers=["put-applied", "delete-applied", "compaction-between", "new-leader-refuses-watch", "done"]),
             dict(run=B + "VerifC06Race", quick=dict(preempt=2), thorough=dict(preempt=3), covers=["read-saw-racing-write", "read-missed-racing-write", "done"], stress=10),
+            dict(run=B + "VerifC05PublishHeld", name="C06_publish", quick=dict(before=1, cache=8), thorough=dict(before=2, cache=2), covers=["events-delivered", "done"], stress=5),
+            dict(run=B + "VerifC05Publish", name="C06_publish_sched", quick=dict(before=1, pending=1, preempt=2), thorough=dict(before=1, pending=2, preempt=3), covers=["events-delivered", "done"], stress=60),
         ],
-        bounds=dict(quick="1-write history, list at latest (R), watch from R+1, 2 further symbolic writes (successful and failed) with an optional compaction at any revision in between, reconstruction compared with the list at the latest revision R' and with the reference model; alternatively one more write and then the watch goes to a node that has just taken over (empty event cache): refused or complete; the range read racing a concurrent create and the sequencer (interleaved at store operations, revision dealing and committing, <= 2 scheduling delays), then watch + 1 further write",
-                    thorough="2 keys; the racing range read with 3 scheduling deviations"),
-        outside="the watch registration racing writes (C05 hand-over harness); intermediate R' (only the latest is compared); more than one concurrent writer",
+        bounds=dict(quick="1-write history, list at latest (R), watch from R+1, 2 further symbolic writes (successful and failed) with an optional compaction at any revision in between, reconstruction from the events up to any later revision R' (symbolic, R <= R' <= latest) compared with the list served at R' (explicit revision, or 0 at the latest; refused only below a compaction floor) and with the reference model; alternatively one more write and then the watch goes to a node that has just taken over (empty event cache): refused or complete; the range read racing a concurrent create and the sequencer (interleaved at store operations, revision dealing and committing, <= 2 scheduling delays), then watch + 1 further write; the watch from R+1 registering while the sequencer publishes the write at R+1 (event cache and broadcast) — with the sequencer held at the cache insertion, and under every interleaving of watch, sequencer and fan-out with <= 2 scheduling delays",
+                    thorough="2 keys; the racing range read with 3 scheduling deviations; publication of 2 pending writes with 3 delays"),
+        outside="more than one concurrent writer; a watch registration racing several writers (C05 hand-over harness covers one)",
     ),
     "C09": dict(
         harnesses=[
